@@ -886,7 +886,15 @@ def run(ctx: Any, prog: Program) -> None:
     ok = shaped and dotted(comps[0].generators[0].iter) in val_aliases and not comps[0].generators[0].ifs and isinstance(comps[0].elt.func.value, ast.Name) \
         and isinstance(comps[0].generators[0].target, ast.Name) and comps[0].elt.func.value.id == comps[0].generators[0].target.id
     if not comps:
-        ctx.shape('C09.P4', False, kv, kc, 'Keyvalues.copy: the comprehension that copies the children was not found', text='deep child copy')
+        # no comprehension at all: a container copy of the child list (`list(self._value)`, a slice, `.copy()`) shares the children
+        shallow4 = [a for a in ast.walk(kc) if isinstance(a, ast.Assign) and any(isinstance(t, ast.Attribute) and t.attr == '_value' for t in a.targets)
+                    and ((isinstance(a.value, ast.Call) and dotted(a.value.func) in ('list', 'tuple') and a.value.args and dotted(a.value.args[0]) in val_aliases)
+                         or (isinstance(a.value, ast.Subscript) and dotted(a.value.value) in val_aliases and isinstance(a.value.slice, ast.Slice))
+                         or (isinstance(a.value, ast.Call) and isinstance(a.value.func, ast.Attribute) and a.value.func.attr == 'copy' and dotted(a.value.func.value) in val_aliases))]
+        if shallow4:
+            ctx.check('C09.P4', False, kv, shallow4[0], f'Keyvalues.copy fills the copy with `{U(shallow4[0].value)[:40]}`: a new list holding the SAME child objects - editing a child of the copy edits the original tree', text='deep child copy')
+        else:
+            ctx.shape('C09.P4', False, kv, kc, 'Keyvalues.copy: the comprehension that copies the children was not found', text='deep child copy')
     else:
         ctx.check('C09.P4', ok, kv, kc, 'Keyvalues.copy must rebuild the child list from child.copy() of every child', text='deep child copy')
     # does Keyvalues.<m>(x) store x itself?  (append does - it is documented to take ownership; extend copies)
